@@ -6,6 +6,8 @@
 import Vise.Db
 import Vise.Gen.Fn.Db_ToSessionKey
 import Vise.Gen.Fn.Db_ToDbKey
+import Vise.Gen.Fn.Db_FromSessionKey
+import Vise.Gen.Fn.Db_FromDbKey
 
 namespace Vise.Tie
 
@@ -35,7 +37,68 @@ theorem toDbKey_tie (typ : Nat) (b : Bytes) (l : Option Bytes) :
       · simp [hc, ht, hl, hs]
       · simp [hc, ht, hl]
 
+/-- `FromSessionKey` (the inverse direction, used by `DecodeKey` when a listing turns file names back into keys):
+the session prefix is checked and removed; a key of another session is an error. -/
+theorem fromSessionKey_tie (sid key : Bytes) :
+    GenFn.db_FromSessionKey key sid =
+      (match Fs.fromSessionKey sid key with
+       | .ok k => (k, "")
+       | _ => ([], "errorf")) := by
+  unfold GenFn.db_FromSessionKey Fs.fromSessionKey
+  cases sid with
+  | nil => simp
+  | cons a l =>
+    by_cases h : List.isPrefixOf (a :: l) key
+    · simp [h]
+    · simp [h]
+
+theorem u8_eq_95 (c : UInt8) : c.toNat = 95 ↔ c = 95 := by
+  constructor
+  · intro h; exact UInt8.toNat_inj.mp (by simpa using h)
+  · intro h; subst h; rfl
+
+/-- `FromDbKey` (type byte and language suffix removed from a stored key). The regenerated definition lives in the Option monad,
+`none` being the run-time panic of an index or slice expression out of range: the equation also says that it never panics. -/
+theorem fromDbKey_tie (b : Bytes) :
+    GenFn.db_FromDbKey b =
+      some (match Fs.fromDbKey b with
+       | .ok k => (k, "")
+       | _ => ([], "errorf")) := by
+  unfold GenFn.db_FromDbKey Fs.fromDbKey
+  have hl : langTypes = 14 := by decide
+  match b with
+  | [] => simp
+  | [x] => simp
+  | x :: y :: rest =>
+    have h2 : ¬ (((x :: y :: rest).length : Int) < 2) := by simp; omega
+    simp only [h2, decide_false, Bool.false_eq_true, if_false]
+    simp [hl]
+    have g1 : (1 : Int) ≤ ↑rest.length + 1 + 1 := by omega
+    have n2 : ¬ rest.length + 1 + 1 < 2 := by omega
+    simp only [g1, if_true, Option.bind_some]
+    by_cases ht : 0 < x.toNat &&& 14
+    · by_cases h6 : 6 < rest.length + 1
+      · have h6' : (6 : Int) < ↑rest.length + 1 := by omega
+        have g4 : (4 : Int) ≤ ↑rest.length + 1 := by omega
+        have g5 : (↑rest.length + 1 - 4 : Int) ≤ ↑rest.length + 1 := by omega
+        have ei : (↑rest.length + 1 - 4 : Int).toNat = rest.length - 3 := by omega
+        simp only [ht, h6, h6', g4, g5, ei, if_true, and_self, true_and, Option.bind_some]
+        cases hq : (y :: rest)[rest.length - 3]? with
+        | none =>
+          have := List.getElem?_eq_none_iff.mp hq
+          simp at this; omega
+        | some c =>
+          by_cases hc : c = 95
+          · simp [hc, n2]
+          · have : ¬ c.toNat = 95 := fun h => hc ((u8_eq_95 c).mp h)
+            simp [hc, this, n2]
+      · have h6' : ¬ (6 : Int) < ↑rest.length + 1 := by omega
+        simp [ht, h6, h6', n2]
+    · simp [ht, n2]
+
 end Vise.Tie
 
 #print axioms Vise.Tie.toSessionKey_tie
 #print axioms Vise.Tie.toDbKey_tie
+#print axioms Vise.Tie.fromSessionKey_tie
+#print axioms Vise.Tie.fromDbKey_tie
